@@ -176,3 +176,32 @@ _MG_B = HDR + "m1_cnt = 0\nm1_acc = 0\ndef m1_bump():\n    global m1_acc\n    d2
 raw("FX-module-global-lifetime", "C13", {"A": {"": _MG_MAIN, "m1": _MG_M1, "lib": _MG_LIB, "util": _MG_UTIL}, "B": _MG_B, "opts": {}})
 raw("FX-D35-falsy-constant", "C09", {"kind": "program", "src": {"": HDR + "k = [0, 1][0]\nd1.Setting = k + 1\ndb.Setting = k\n"}, "opts": {}})
 raw("STRFOLD", "C08", {"src": {"": HDR + "db.Setting = STR('0') + 1\n"}, "opts": {}, "family": "strings"})
+prog("D36-nested-def", "C04", """
+g0 = d0.Setting
+def f1():
+    def in1(q1):
+        stack[3] = q1
+        return (q1 * stack[3])
+    db.Setting = (0 + (g0 + g0))
+    db.Setting = in1(in1((g0 / 2))) + 1
+    return g0
+while True:
+    d1.Setting = f1()
+    yield_()
+""", opts={})
+prog("D37-alias-outlives-source", "C04", """
+def f0():
+    db.Setting = d0.Setting
+def f2(p20):
+    t3 = p20
+    if p20 < 3:
+        db.Setting = p20
+        return
+    if t3 < d0.Setting:
+        return
+    f0()
+while True:
+    f2(d1.Setting)
+    f2(3)
+    yield_()
+""", opts={})
